@@ -288,6 +288,17 @@ with tempfile.TemporaryDirectory() as d:
             a, b = np.asarray(got.halos[o], dtype=float), np.asarray(ref.halos[o], dtype=float)
             if a.shape != b.shape or not np.allclose(a, b, rtol=1e-5, atol=0, equal_nan=True):
                 bad.append(f'column {{o}} loaded through fields={{req!r}} = {{a.tolist()}} but {{b.tolist()}} under fields="all"')
+            elif not lc:
+                # the reader is deterministic: the same column must come out BITWISE identical whatever else was requested.  The solver
+                # cannot pick inputs on which a float32/float64 mix-up shows (rounding is opaque to it), so try a catalogue of 64
+                # ordinary random halos as well
+                with tempfile.TemporaryDirectory() as d2:
+                    g2 = realcat.write_catalog(d2, {{}}, slabs=(0,), nh=64 if not subs else 2, cleaned=cleaned, subsA=subsA, concrete=conc)
+                    x, y = CompaSOHaloCatalog(g2, fields=req, **kw), CompaSOHaloCatalog(g2, fields='all', **kw)
+                    xa, ya = np.asarray(x.halos[o]), np.asarray(y.halos[o])
+                    if xa.dtype != ya.dtype or not np.array_equal(xa, ya, equal_nan=True):
+                        nd = int((~((xa == ya) | ((xa != xa) & (ya != ya)))).sum()) if xa.shape == ya.shape else -1
+                        bad.append(f'column {{o}} is not bitwise the same through fields={{req!r}} and fields="all" on 64 random halos: dtype {{xa.dtype}} vs {{ya.dtype}}, {{nd}} differing cells')
         elif o not in got.halos.colnames:
             bad.append(f'column {{o}} missing from the result of fields={{req!r}}: {{got.halos.colnames}}')
 print('case', case, 'request', info.get('request'), 'column', info.get('column'))
